@@ -613,7 +613,7 @@ def run(check, repo: Repo) -> None:
     cc_np = [d for d in definitions(ccs, "cc") if isinstance(d, ast.AST)]
     cc_t = [d for d in definitions(ali, "cc") if isinstance(d, ast.AST)]
     ok_np = len(cc_np) == 1 and unparse(cc_np[0]) == "F_ref * xp.conj(F_im)"
-    ok_t = len(cc_t) == 1 and unparse(cc_t[0]) == "G1 * G2.conj()"
+    ok_t = len(cc_t) == 1 and unparse(cc_t[0]) in ("G1 * G2.conj()", "G1.mul_(G2.conj())", "G1.mul(G2.conj())", "torch.mul(G1, G2.conj())")  # same product; the in-place form reuses G1's storage
     check.decide(ok_np, "C13-R2", "cross_correlation_shift: correlation = F_ref · conj(F_im) (second image conjugated)", "", mod.line(ccs),
                  fail_detail=f"cc = {unparse(cc_np[0]) if cc_np else '?'}")
     check.decide(ok_t, "C13-R2", "align_images_fourier_torch: correlation = G1 · conj(G2) (second image conjugated)", "", mod.line(ali),
